@@ -109,11 +109,10 @@ func runC12(c *Ctx) {
 
 func ruleOnePump(c *Ctx, m *multiModel) {
 	f := m.acquire
-	c.Check("ONEPUMP", m.T+":one-go-statement", c.P.Pos(f.Pos()), len(m.goSites) == 1, fmt.Sprintf("Acquire has %d go statements (expected exactly one reader goroutine per socket)", len(m.goSites)))
-	loops := eng.Loops(f)
+	c.Check("ONEPUMP", m.T+":one-go-statement", c.P.Pos(f.Pos()), len(m.goSites) == 1, fmt.Sprintf("Acquire (with its helpers) has %d go statements (expected exactly one reader goroutine per socket)", len(m.goSites)))
 	for _, g := range m.goSites {
-		c.CheckAt("ONEPUMP", m.T+":go-only-on-socket-creation", g, eng.Cut(f, g.Block(), eng.EdgeSet{m.createEdge: true}), "a reader goroutine is started on a path where the socket already exists: two readers would compete for the same socket")
-		c.CheckAt("ONEPUMP", m.T+":go-not-in-loop", g, eng.InnermostLoop(loops, g.Block()) == nil, "the reader goroutine is started inside a loop")
+		c.CheckAt("ONEPUMP", m.T+":go-only-on-socket-creation", g, m.R.CutDeep(g, m.gCreate), "a reader goroutine is started on a path where the socket already exists: two readers would compete for the same socket")
+		c.CheckAt("ONEPUMP", m.T+":go-not-in-loop", g, eng.InnermostLoop(eng.Loops(g.Parent()), g.Block()) == nil, "the reader goroutine is started inside a loop")
 	}
 }
 
